@@ -399,7 +399,7 @@ def rule_f(ctx, ix):
             if not used:
                 continue
             ngen += 1
-            got = radii(st.value, {})
+            got = radii(st.value, env)
             ctx.ob(R, '%s general `%s`' % (f.construct, norm(st)[:50]), 'at a general angle the half-extent is computed from both radii',
                    got == {'radius_x', 'radius_y'},
                    detail='EllipticalROI.bounds sets the half-extent with `%s` at an angle that is not a multiple of a quarter turn: it depends '
